@@ -99,5 +99,5 @@ func run(c *core.Ctx) {
 	c.Set("doubles_equal_to_reference_ldexp_rule", st.DoubleExact)
 	c.Set("max_relative_error_normal_doubles", fmt.Sprintf("%.3g (bound 2^-30 = 9.31e-10)", st.MaxRelErr))
 	c.Set("exhaustive", true)
-	c.Set("rule", "behaviours = initial states of Gen_TypedValues printed by TLC: every sequence of <=2 (thorough <=3) value tokens over the 7 type shapes (char, int32+, int32-, 64-bit extreme, double, string, string with NUL / empty / multi-byte) x both encryption modes x every single cut position (thorough: also every pair of cuts for <=2 values). Each behaviour is evaluated with the model's own values (real Put* bytes == TLA+ Layout == independent encoder) and with seeded expansions to other values of the same types and lengths (integer boundaries through every width API, random finite doubles incl. subnormals / extreme exponents, random UTF-8), 60 (thorough 400) expansions for single-value behaviours; every evaluation = real Put* -> reference parse/open, then reference re-framing at the cuts -> real Get* (+ 1..5-byte read dribble on odd behaviours). Long strings (16 KiB .. 2 MiB thresholds of PutString) with cuts inside the length prefix / mid-string / at the terminator are Go-side cases bound to the model's Size only. Long messages (8, 20, 64, 300 seeded mixed values, > 64 / > 512 / > 4096 bytes; thorough also 128 and 700 values): CutIndependence evaluated on the real reader for equal-size frames of EVERY size 1..len, every single cut and 300 (thorough 3000) seeded multi-cut sets per message and mode; non-trivial = has a cut or more than one value")
+	c.Set("rule", "behaviours = initial states of Gen_TypedValues printed by TLC: every sequence of <=2 (thorough <=3) value tokens over the 7 type shapes (char, int32+, int32-, 64-bit extreme, double, string, string with NUL / empty / multi-byte) x both encryption modes x every single cut position (thorough: also every pair of cuts for <=2 values). Each behaviour is evaluated with the model's own values (real Put* bytes == TLA+ Layout == independent encoder) and with seeded expansions to other values of the same types and lengths (integer boundaries through every width API, random finite doubles incl. subnormals / extreme exponents, random UTF-8), 60 (thorough 400) expansions for single-value behaviours; every evaluation = real Put* -> reference parse/open, then reference re-framing at the cuts -> real Get* (+ 1..5-byte read dribble on odd behaviours). Long strings (16 KiB .. 2 MiB thresholds of PutString) with cuts inside the length prefix / mid-string / at the terminator are Go-side cases: real PutString/PutStringBytes frames opened by the reference codec == reference encoder byte for byte (length == the model's Size), decoded by the real Get* from the real frames and from reference re-cuts, alone and between other values (quick: 16 KiB band, 1 MiB +-33, 2.1 MiB; thorough: more lengths and cut pairs). Long messages (8, 20, 64, 300 seeded mixed values, > 64 / > 512 / > 4096 bytes; thorough also 128 and 700 values): CutIndependence evaluated on the real reader for equal-size frames of EVERY size 1..len, every single cut and 300 (thorough 3000) seeded multi-cut sets per message and mode; non-trivial = has a cut or more than one value")
 }
